@@ -1110,14 +1110,17 @@ pub static TRAPOPS: Driver<TrapOpsCase> = Driver::new("C11", "trap-operands", ch
 pub struct ActErrCase {
     /// the subshell sends USR2 before USR1
     pub rev: bool,
-    /// which syntax error: 0 `fi`, 1 `)`, 2 unclosed quote, 3 `if then`
+    /// which error: 0 `fi`, 1 `)`, 2 unclosed quote, 3 `if then`, 4 `${unset_v?}`, 5 assignment to a
+    /// read-only variable
     pub err: u8,
     pub sameline: bool,
     pub sched: Option<u64>,
 }
 
 fn check_act_err(c: &ActErrCase) -> Outcome {
-    let bad = ["mark B; fi", "mark B; )", "mark B; mark \"x", "if then mark B; fi"][c.err as usize % 4];
+    // four syntax errors (nothing of the action may run), an expansion error and an assignment error
+    // (shell errors that abort a non-interactive shell just the same)
+    let bad = ["mark B; fi", "mark B; )", "mark B; mark \"x", "if then mark B; fi", ": ${unset_v?}; mark B", "readonly rr=1; rr=2; mark B"][c.err as usize % 6];
     // which of two pending signals is handled first is not specified: run both assignments of the
     // erroneous action; the good action can precede the abort in at most one of them
     let mut good_ran = 0;
@@ -1148,7 +1151,7 @@ fn check_act_err(c: &ActErrCase) -> Outcome {
             return Outcome::fail(ctx(format!("commands run: {got:?}; `mark 1` expected first")));
         }
         if r.status == 0 || r.stderr.is_empty() {
-            return Outcome::fail(ctx(format!("exit status {} / no diagnostic after a syntax error in a trap action", r.status)));
+            return Outcome::fail(ctx(format!("exit status {} / no diagnostic after a syntax or shell error in a trap action", r.status)));
         }
         if got.iter().filter(|g| *g == "G").count() > 1 {
             return Outcome::fail(ctx(format!("the other action ran more than once: {got:?}")));
@@ -1173,7 +1176,7 @@ pub static ACTERR: Driver<ActErrCase> = Driver::new("C11", "action-syntax-error"
 fn act_err_cases(seeds: u64, base: u64) -> Vec<ActErrCase> {
     let mut v = vec![];
     for rev in [false, true] {
-        for err in 0..4u8 {
+        for err in 0..6u8 {
             for sameline in [false, true] {
                 v.push(ActErrCase { rev, err, sameline, sched: None });
                 for k in 0..seeds {
